@@ -7,6 +7,12 @@ CHECKS = {
         "text": "Generated-input search: random typed BV/Bool trees, rewrite-shaped templates and an exhaustive enumeration of two-operator shapes at width<=3 are built through the public API and compared, for all assignments (small widths) or by a Z3 validity query, with an independently written semantics. No counterexample in the explored space; absence elsewhere is not claimed.",
         "note": "Trusts Z3's bit-vector decision procedure and the three independently written reference semantics agreeing; per-case Z3 timeouts are counted inconclusive.",
     },
+    "C04": {
+        "level": "exploration",
+        "technique": "property-based testing / fuzzing: generated extreme-argument operation trees (BV, FP, strings) with an exception-type oracle, memory limit and hang watchdog",
+        "text": "Generated-input search for crashes: trees from the BV/FP/string grammars in extreme-constant mode and all rewrite templates are built through the public API under RLIMIT_AS and a watchdog; any exception other than a documented ClaripyError whose condition really holds on the tree is a violation. Shows absence of crashes only on the explored cases.",
+        "note": "Memory exhaustion is detected through RLIMIT_AS (6 GiB); a hang needs >10 s in the worker and >100 s alone in a fresh process, otherwise it is counted inconclusive.",
+    },
 }
 
 NOT_APPLICABLE = {}
